@@ -11,6 +11,7 @@
   markers differ, from the second at the latest when they coincide."
 -/
 import IgrisModel.C05.LemmasBuf
+import IgrisModel.C05.Lemmas3
 namespace Igris.Gstuff
 open Igris.Proto Igris.C17
 
@@ -450,6 +451,274 @@ theorem legacy_no_hunt_after_error_witness :
     ldelivered (LRecv.init 16) [legStart, legStub, 0x00#8, 0x41#8, strmcrc8 0xFF#8 [0x41#8], legStart] = [] ∧
     unescape ⟨legStart, legStart, legStub, legStubStart, legStubStart, legStubStub⟩
       [legStub, 0x00#8, 0x41#8, strmcrc8 0xFF#8 [0x41#8]] = none := by
+  decide +kernel
+
+/-! ### round 3: soundness and overflow clauses ON THE BUFFER-LEVEL MODEL, both receivers -/
+
+/-- LEGACY SOUNDNESS about the C object itself (`struct sline` block, 32-bit counters, every access
+checked): after ANY stream `bs` fed to `gstuff_autorecv_setbuf_v1(buf, cap)` (any block, any declared
+capacity ≤ |buf|), whenever `gstuff_autorecv_newchar_v1` answers NEWPACKAGE to a byte `c`: `c` is the
+marker; a marker was received before; reading the packet through `sline_getline` / `sline_size` does
+not fault and hands over a NON-EMPTY line of at most cap-1 bytes; and the unescaping of the raw bytes
+since the last marker is exactly (line minus its last byte) followed by the matching CRC-8 — a packet
+is delivered only if its CRC matches. -/
+theorem legacy_sound_buf (buf : List Byte) (cap : BitVec 32) (hblk : cap.toNat ≤ buf.length)
+    (bs : List Byte) (c : Byte) (r r' : BLRecv) (ss : List Int)
+    (h1 : blfeed (BLRecv.init buf cap) bs = some (r, ss)) (h2 : blnewchar r c = some (r', NEWPACKAGE)) :
+    c = legStart ∧ ∃ since r'' line, sinceLastStart legStart bs = some since ∧
+      r'.getline = some (r'', line) ∧ line ≠ [] ∧ line.length + 1 ≤ cap.toNat ∧
+      unescape Ctx.leg since = some (line.dropLast ++ [strmcrc8 0xFF#8 line.dropLast]) := by
+  have hok : SlineOK (BLRecv.init buf cap).line := ⟨rfl, hblk, by simp [BLRecv.init, Sline.init]⟩
+  have habs : (BLRecv.init buf cap).abs = LRecv.init cap.toNat := by
+    simp [BLRecv.abs, BLRecv.init, Sline.init, Sline.bytes, LRecv.init]
+  obtain ⟨r0, e1, e2, e3, e4, _, _⟩ := blfeed_refines (BLRecv.init buf cap) hok bs
+  rw [e1] at h1
+  simp only [Option.some.injEq, Prod.mk.injEq] at h1
+  obtain ⟨rfl, _⟩ := h1
+  obtain ⟨r1, f1, f2, f3, _, _⟩ := blnewchar_refines r0 e3 c
+  rw [f1] at h2
+  simp only [Option.some.injEq, Prod.mk.injEq] at h2
+  obtain ⟨rfl, hst⟩ := h2
+  rw [habs] at e2
+  rw [e2] at hst f2
+  obtain ⟨hc, since, hs1, hs2, hs3⟩ := legacy_sound cap.toNat bs c hst
+  rw [← f2] at hs2 hs3
+  have hcap1 : r1.line.cap = cap := by
+    have := congrArg LRecv.cap f2
+    rw [lnewchar_cap, lfeed_cap] at this
+    exact BitVec.eq_of_toNat_eq this
+  have hlen : r1.abs.line.length ≤ cap.toNat - 1 := by
+    have := f3.bound
+    rw [hcap1] at this
+    simp only [BLRecv.abs, Sline.bytes, List.length_take]
+    omega
+  have hpos : 1 ≤ r1.abs.line.length := by
+    cases hq : r1.abs.line with
+    | nil => exact absurd hq hs3
+    | cons x xs => simp
+  obtain ⟨r2, g1, _, _⟩ := lgetline_ok r1 f3 (by rw [hcap1]; omega)
+  exact ⟨hc, since, r2, r1.abs.line, hs1, g1, hs3, by omega, hs2⟩
+
+-- non-vacuity: the buffer-level legacy receiver does answer NEWPACKAGE (frame of [41] in an 8-byte block)
+example : ((blfeed (BLRecv.init (List.replicate 8 0xA5#8) 8#32) [legStart, 0x41#8, strmcrc8 0xFF#8 [0x41#8]]).bind
+    fun x => blnewchar x.1 legStart).map (·.2) = some NEWPACKAGE := by decide +kernel
+
+/-- the same for the configurable receiver on the buffer-level model (`init(buf, cap)`, `cstr()` /
+`size()`): NEWPACKAGE only on the stop marker, `cstr()` does not fault, the line it hands over has at
+most cap-2 bytes and line ++ crc8(line) is the unescaping of the raw bytes since the last start marker -/
+theorem recv_sound_buf (ctx : Ctx) (h : ctx.WF) (buf : List Byte) (cap : BitVec 32) (hblk : cap.toNat ≤ buf.length)
+    (bs : List Byte) (c : Byte) (r r' : BRecv) (ss : List Int)
+    (h1 : bfeed ctx (BRecv.init buf cap) bs = some (r, ss)) (h2 : bnewchar ctx r c = some (r', NEWPACKAGE)) :
+    c = ctx.stop ∧ ∃ since r'' line, sinceLastStart ctx.start bs = some since ∧
+      r'.cstr = some (r'', line) ∧ line.length + 2 ≤ cap.toNat ∧
+      unescape ctx since = some (line ++ [strmcrc8 0xFF#8 line]) := by
+  have hok : SlineOK (BRecv.init buf cap).line := ⟨rfl, hblk, by simp [BRecv.init, Sline.init]⟩
+  have habs : (BRecv.init buf cap).abs = Recv.init cap.toNat := by
+    simp [BRecv.abs, BRecv.init, Sline.init, Sline.bytes, Recv.init]
+  obtain ⟨r0, e1, e2, e3, e4, _, _⟩ := bfeed_refines ctx (BRecv.init buf cap) hok bs
+  rw [e1] at h1
+  simp only [Option.some.injEq, Prod.mk.injEq] at h1
+  obtain ⟨rfl, _⟩ := h1
+  obtain ⟨r1, f1, f2, f3, _, _⟩ := bnewchar_refines ctx r0 e3 c
+  rw [f1] at h2
+  simp only [Option.some.injEq, Prod.mk.injEq] at h2
+  obtain ⟨rfl, hst⟩ := h2
+  rw [habs] at e2
+  rw [e2] at hst f2
+  obtain ⟨hc, since, hs1, hs2⟩ := recv_sound ctx h cap.toNat bs c hst
+  rw [← f2] at hs2
+  -- before the stop marker the line was  line ++ [crc]  (non-empty: CRC residue 0 ≠ FF), at most cap - 1 bytes
+  obtain ⟨n1, _, n3, n4⟩ := newpackage_inv ctx (feed ctx (Recv.init cap.toNat) bs).1 c hst
+  have hgood : Good (feed ctx (Recv.init cap.toNat) bs).1 := feed_good ctx _ bs (by simp [Good, Recv.init])
+  have hne : (feed ctx (Recv.init cap.toNat) bs).1.line ≠ [] := by
+    intro he
+    have := hgood n1 he
+    rw [n3] at this
+    exact absurd this (by decide)
+  have hb := (recv_bounds ctx cap.toNat bs).1
+  have hpos : 1 ≤ (feed ctx (Recv.init cap.toNat) bs).1.line.length := by
+    cases hq : (feed ctx (Recv.init cap.toNat) bs).1.line with
+    | nil => exact absurd hq hne
+    | cons x xs => simp
+  have hl1 : r1.abs.line.length + 2 ≤ cap.toNat := by
+    rw [f2, n4, List.length_dropLast]; omega
+  have hcap1 : r1.line.cap = cap := by
+    have := congrArg Recv.cap f2
+    rw [newchar_cap, feed_cap] at this
+    exact BitVec.eq_of_toNat_eq this
+  obtain ⟨r2, g1, _, _⟩ := cstr_ok r1 f3 (by rw [hcap1]; omega)
+  exact ⟨hc, since, r2, r1.abs.line, hs1, g1, hl1, hs2⟩
+
+/-- LEGACY OVERFLOW CLAUSE about the C object: block `buf`, declared capacity 1 ≤ cap ≤ |buf|, ANY
+history `g`, ANY marker-free byte sequence between two markers whose unescaping grows beyond cap-1
+bytes: the trace computed on the buffer-level model (what the driver prints, `sline_getline` at every
+NEWPACKAGE) exists — NO ACCESS OUTSIDE THE BLOCK —, contains OVERFLOW among the answers to the frame,
+and its deliveries are those of `g` followed by the opening marker alone: nothing of the over-long frame -/
+theorem legacy_overflow_reported_buf (buf : List Byte) (cap : BitVec 32) (hcap1 : 1 ≤ cap.toNat)
+    (hblk : cap.toNat ≤ buf.length) (g pre rest : List Byte)
+    (hnm : ∀ b ∈ pre ++ rest, b ≠ legStart)
+    (u : List Byte) (pend : Bool) (hu : unescPartial Ctx.leg pre = some (u, pend))
+    (hbig : cap.toNat - 1 < u.length) :
+    ∃ t t0, blfeedTrace (BLRecv.init buf cap) (g ++ legStart :: ((pre ++ rest) ++ [legStart])) = some t ∧
+      blfeedTrace (BLRecv.init buf cap) (g ++ [legStart]) = some t0 ∧
+      'O' ∈ t.1.drop g.length ∧ t.2 = t0.2 := by
+  obtain ⟨o1, o2, _⟩ := legacy_overflow_reported cap.toNat g pre rest hnm u pend hu hbig
+  refine ⟨_, _, legacy_trace_never_faults buf cap hcap1 hblk _, legacy_trace_never_faults buf cap hcap1 hblk _, ?_, ?_⟩
+  · rw [lfeedTrace_eq, lfeed_append]
+    simp only [List.map_append]
+    rw [List.drop_left' (by rw [List.length_map, lfeed_length])]
+    exact List.mem_map.mpr ⟨OVERFLOW, o1, by decide⟩
+  · rw [lfeedTrace_eq, lfeedTrace_eq]
+    simp only [ldelivered_append, o2]
+
+/-- the configurable receiver alike (start ≠ stop: from any history; the start = stop case needs a
+ready receiver, see `overflow_any_state`): buffer-level trace exists, OVERFLOW answered inside the
+frame, deliveries = those of the history `g` -/
+theorem overflow_reported_buf (ctx : Ctx) (h : ctx.WF) (hne : ctx.start ≠ ctx.stop)
+    (buf : List Byte) (cap : BitVec 32) (hcap1 : 1 ≤ cap.toNat) (hblk : cap.toNat ≤ buf.length)
+    (g pre rest : List Byte) (hnm : ∀ b ∈ pre ++ rest, b ≠ ctx.start ∧ b ≠ ctx.stop)
+    (u : List Byte) (pend : Bool) (hu : unescPartial ctx pre = some (u, pend))
+    (hbig : cap.toNat - 1 < u.length) :
+    ∃ t t0, bfeedTrace ctx (BRecv.init buf cap) (g ++ ctx.start :: ((pre ++ rest) ++ [ctx.stop])) = some t ∧
+      bfeedTrace ctx (BRecv.init buf cap) g = some t0 ∧
+      'O' ∈ t.1.drop g.length ∧ t.2 = t0.2 := by
+  have hc : (feed ctx (Recv.init cap.toNat) g).1.cap = cap.toNat := feed_cap ctx _ g
+  obtain ⟨o1, o2, _⟩ := overflow_any_state ctx h (feed ctx (Recv.init cap.toNat) g).1 (Or.inl hne) pre rest hnm u pend hu
+    (by rw [hc]; exact hbig)
+  refine ⟨_, _, recv_trace_never_faults ctx buf cap hcap1 hblk _, recv_trace_never_faults ctx buf cap hcap1 hblk _, ?_, ?_⟩
+  · rw [feedTrace_eq, feed_append]
+    simp only [List.map_append]
+    rw [List.drop_left' (by rw [List.length_map, feed_length])]
+    exact List.mem_map.mpr ⟨OVERFLOW, o1, by decide⟩
+  · rw [feedTrace_eq, feedTrace_eq]
+    simp only [delivered_append, o2, List.append_nil]
+
+/-- a legacy struct used WITHOUT `gstuff_autorecv_setbuf_v1` (zero-initialised: state 0, crc 0, no
+buffer, capacity 0 — how a session starts): no call faults and nothing is ever stored -/
+theorem legacy_nobuf_never_faults (bs : List Byte) :
+    ∃ r', blfeed ⟨.l0, 0#8, ⟨[], 0, 0, 0⟩⟩ bs = some (r', (lfeed ⟨.l0, 0#8, [], 0⟩ bs).2) ∧
+      r'.line.len = 0 ∧ r'.line.buf = [] := by
+  have hok : SlineOK (⟨.l0, 0#8, ⟨[], 0, 0, 0⟩⟩ : BLRecv).line := ⟨rfl, by simp, by simp⟩
+  obtain ⟨r', e1, _, e3, e4, e5, _⟩ := blfeed_refines ⟨.l0, 0#8, ⟨[], 0, 0, 0⟩⟩ hok bs
+  refine ⟨r', e1, ?_, ?_⟩
+  · have := e3.bound
+    rw [e4] at this
+    exact BitVec.eq_of_toNat_eq (by simpa using this)
+  · exact List.eq_nil_of_length_eq_zero (by simpa using e5)
+
+/-! ### round 3: resynchronisation, exactly -/
+
+/-- SELF-RESYNCHRONISATION, EXACT FORM, every well-formed alphabet (start ≠ stop AND start = stop),
+any garbage `g` fed to a fresh receiver (`g` arbitrary = every reachable state), frames p₁ p₂ … of
+which p₂ … fit.  Let r' be the receiver after the garbage.
+  (1) EXACTLY ONE FRAME — the first — IS LOST iff  start = stop  and r' is inside a frame with a
+      non-empty line: p₁'s opening marker is then taken for the stop marker, which delivers the line
+      begun inside the garbage (if its CRC happens to match) or nothing; p₁ — of ANY length, fitting
+      or not — is skipped; every later frame is delivered.
+  (2) in every other case NO frame is lost: all of p₁ p₂ … are delivered, in order, nothing else.
+So at most one frame is lost, never a later one, and the condition under which it is lost is decidable
+from the receiver state. -/
+theorem resync_loss_exact (ctx : Ctx) (h : ctx.WF) (cap : Nat) (g p1 : List Byte) (ps : List (List Byte))
+    (hcap : ∀ p ∈ ps, p.length + 2 ≤ cap) :
+    (ctx.start = ctx.stop ∧ (feed ctx (Recv.init cap) g).1.state = .s1 ∧ (feed ctx (Recv.init cap) g).1.line ≠ [] →
+      delivered ctx (Recv.init cap) (g ++ (p1 :: ps).flatMap (encode ctx)) =
+        delivered ctx (Recv.init cap) g ++
+          (if (feed ctx (Recv.init cap) g).1.crc = 0#8 then [(feed ctx (Recv.init cap) g).1.line.dropLast] else []) ++ ps) ∧
+    (¬ (ctx.start = ctx.stop ∧ (feed ctx (Recv.init cap) g).1.state = .s1 ∧ (feed ctx (Recv.init cap) g).1.line ≠ []) →
+      p1.length + 2 ≤ cap →
+      delivered ctx (Recv.init cap) (g ++ (p1 :: ps).flatMap (encode ctx)) =
+        delivered ctx (Recv.init cap) g ++ p1 :: ps) := by
+  have hc : (feed ctx (Recv.init cap) g).1.cap = cap := feed_cap ctx _ g
+  have hgood : Good (feed ctx (Recv.init cap) g).1 := feed_good ctx _ g (by simp [Good, Recv.init])
+  rw [delivered_append, List.flatMap_cons, delivered_append]
+  generalize (feed ctx (Recv.init cap) g).1 = r' at hc hgood
+  obtain ⟨st, crc, line, cap'⟩ := r'
+  simp only at hc; subst hc
+  constructor
+  · rintro ⟨he, hs, hl⟩
+    simp only at hs hl; subst hs
+    obtain ⟨d, rd, cp⟩ := first_frame_inframe ctx h he crc line cap' hl p1
+    rw [d, frames_from_ready ctx h _ rd ps (by intro q hq; rw [cp]; exact hcap q hq)]
+    simp
+  · intro hn hp1
+    have key : delivered ctx ⟨st, crc, line, cap'⟩ (encode ctx p1) = [p1] ∧
+        Ready (feed ctx ⟨st, crc, line, cap'⟩ (encode ctx p1)).1 ∧
+        (feed ctx ⟨st, crc, line, cap'⟩ (encode ctx p1)).1.cap = cap' := by
+      by_cases he : ctx.start = ctx.stop
+      · cases st
+        · exact frame_from_ready ctx h _ (Or.inl (Or.inl rfl)) p1 hp1
+        · exact frame_from_ready ctx h _ (Or.inl (Or.inr rfl)) p1 hp1
+        · have hl : line = [] := by
+            by_cases hl : line = []
+            · exact hl
+            · exact absurd ⟨he, rfl, hl⟩ hn
+          subst hl
+          have hk : crc = 0xFF#8 := hgood rfl rfl
+          subst hk
+          exact frame_from_ready ctx h _ (Or.inr ⟨rfl, rfl, rfl⟩) p1 hp1
+        · exact first_frame_s2 ctx h crc line cap' p1 hp1
+      · obtain ⟨d, s0, cp⟩ := frame_any_state_distinct ctx h he ⟨st, crc, line, cap'⟩ p1 hp1
+        exact ⟨d, Or.inl (Or.inl s0), cp⟩
+    obtain ⟨d, rd, cp⟩ := key
+    rw [d, frames_from_ready ctx h _ rd ps (by intro q hq; rw [cp]; exact hcap q hq)]
+    simp
+
+-- non-vacuity of both branches: see `resync_loss_tight_witness`
+
+/-- the bound "one frame" is tight and so is "none": v0, capacity 8, frames [41] [42]; after the
+garbage `AC 66` (in a frame, line 66) the first frame is lost, after the garbage `66` (hunting) none -/
+theorem resync_loss_tight_witness :
+    delivered Ctx.v0 (Recv.init 8) ([0xAC#8, 0x66#8] ++ [[0x41#8], [0x42#8]].flatMap (encode Ctx.v0)) = [[0x42#8]] ∧
+    delivered Ctx.v0 (Recv.init 8) ([0x66#8] ++ [[0x41#8], [0x42#8]].flatMap (encode Ctx.v0)) = [[0x41#8], [0x42#8]] := by
+  decide +kernel
+
+/-- LEGACY RECEIVER (start = stop = AC), exact form: after ANY garbage `g` NO FRAME IS LOST — every
+frame p₁ p₂ … that fits is delivered, in order; the only other delivery is at most one packet completed
+by p₁'s opening marker (begun inside the garbage).  (The legacy automaton treats every marker as both
+stop and start: state 0 accumulates at once, which is why it does better than "from the second at the
+latest"; `legacy_resync` of the first round only said `junk ++ [p₂ …]` with unbounded junk.) -/
+theorem legacy_resync_exact (cap : Nat) (g p1 : List Byte) (ps : List (List Byte))
+    (hcap : ∀ p ∈ p1 :: ps, p.length + 2 ≤ cap) :
+    ldelivered (LRecv.init cap) (g ++ (p1 :: ps).flatMap encodeLeg) =
+      ldelivered (LRecv.init cap) (g ++ [legStart]) ++ p1 :: ps ∧
+    (ldelivered (LRecv.init cap) (g ++ [legStart])).length ≤ (ldelivered (LRecv.init cap) g).length + 1 := by
+  have hsplit : g ++ (p1 :: ps).flatMap encodeLeg =
+      (g ++ [legStart]) ++ ((lframeBody p1 ++ [legStart]) ++ ps.flatMap encodeLeg) := by
+    simp [encodeLeg_eq]
+  have hgood : LGood (lfeed (LRecv.init cap) g).1 := lfeed_good _ _ (by simp [LGood, LRecv.init])
+  have hcg : (lfeed (LRecv.init cap) g).1.cap = cap := lfeed_cap _ _
+  constructor
+  · rw [hsplit, ldelivered_append, ldelivered_append]
+    congr 1
+    rw [lfeed_append]
+    simp only [lfeed]
+    generalize (lfeed (LRecv.init cap) g).1 = r at hgood hcg
+    obtain ⟨hm, hmc⟩ := lafter_marker r hgood
+    rw [hcg] at hm hmc
+    obtain ⟨t1, t2, _, t4⟩ := lframe_tail p1 0xFF#8 cap (hcap p1 (by simp))
+    -- the receiver after the opening marker behaves like the primed one on the (non-empty) rest of the frame
+    have hne : lframeBody p1 ++ [legStart] ≠ [] := by simp
+    obtain ⟨c, cs, hcs⟩ := List.exists_cons_of_ne_nil hne
+    have hsame : lfeed (lnewchar r legStart).1 (lframeBody p1 ++ [legStart]) =
+          lfeed ⟨.l1, 0xFF#8, [], cap⟩ (lframeBody p1 ++ [legStart]) ∧
+        ldelivered (lnewchar r legStart).1 (lframeBody p1 ++ [legStart]) =
+          ldelivered ⟨.l1, 0xFF#8, [], cap⟩ (lframeBody p1 ++ [legStart]) := by
+      rcases hm with h0 | h1
+      · generalize (lnewchar r legStart).1 = r1 at h0 hmc
+        obtain ⟨st, crc, line, cap1⟩ := r1
+        simp only at h0 hmc; subst h0; subst hmc
+        rw [hcs]; exact lfeed_l0 crc line cap1 c cs
+      · rw [h1]; exact ⟨rfl, rfl⟩
+    rw [ldelivered_append, hsame.1, hsame.2, t4 rfl]
+    have hready : LReady (lfeed ⟨.l1, 0xFF#8, [], cap⟩ (lframeBody p1 ++ [legStart])).1 := Or.inl (Or.inl t1)
+    rw [lframes_from_ready _ hready ps (by intro q hq; rw [t2]; exact hcap q (by simp [hq]))]
+    simp
+  · rw [ldelivered_append]
+    simp only [ldelivered, List.length_append]
+    split <;> simp
+
+-- non-vacuity: garbage AC 66 (in a frame), then the frames of [41] and [42]: both delivered
+example : ldelivered (LRecv.init 8) ([0xAC#8, 0x66#8] ++ [[0x41#8], [0x42#8]].flatMap encodeLeg) = [[0x41#8], [0x42#8]] := by
   decide +kernel
 
 end Igris.Gstuff
